@@ -1,3 +1,42 @@
-"""Run the static fixtures under /verif/fixtures (must-fire / must-stay-silent samples per rule)."""
+"""setup-time self test on the frozen reference tree (fixtures/reference = the repaired pinned tree):
+every registered check must analyse it cleanly (only the known findings), so a broken analyser is noticed before
+any verdict on /repo is believed."""
+from __future__ import annotations
+
+import concurrent.futures as cf
+import importlib
+import os
+import time
+
+from .core.report import VERIF, CheckContext, load_known
+
+
+def _one(prop: str):
+    from .core.model import AnalysisError, Program
+    ref = os.path.join(VERIF, "fixtures", "reference")
+    mod = importlib.import_module(f"opstatic.checks.{prop}")
+    ctx = CheckContext(prop, "quick")
+    try:
+        mod.analyse(ctx, Program(ref))
+    except AnalysisError as e:
+        return prop, f"ANALYSIS-ERROR {e}", 0
+    known = {(k["rule"], k["key"]) for k in load_known().get("known", []) if k.get("property") == prop}
+    bad = [o for o in ctx.obligations if not o.ok and (o.rule, o.key) not in known]
+    return prop, ("unexpected violation: " + "; ".join(f"{o.rule} {o.key}" for o in bad[:3])) if bad else "", len(ctx.obligations)
+
+
 def main() -> int:
-    return 0
+    from .registry import CLAIMED
+    ref = os.path.join(VERIF, "fixtures", "reference", "OpenPinch")
+    if not os.path.isdir(ref):
+        print("ANALYSIS-ERROR: fixtures/reference missing")
+        return 2
+    t0 = time.time()
+    status = 0
+    with cf.ProcessPoolExecutor(max_workers=min(16, os.cpu_count() or 4)) as ex:
+        for prop, err, n in ex.map(_one, sorted(CLAIMED)):
+            if err:
+                print(f"selfcheck {prop}: {err}")
+                status = 2
+    print(f"opstatic selfcheck: {len(CLAIMED)} checks analyse the reference tree cleanly" if status == 0 else "opstatic selfcheck FAILED", f"({time.time()-t0:.1f}s)")
+    return status
